@@ -132,7 +132,7 @@ var boolOpts = []string{
 	"gen_type_meta", "gen_json_tag", "always_gen_json_tag", "snake_style_json_tag", "lower_camel_style_json_tag", "with_reflection",
 	"enum_as_int_32", "trim_idl", "json_stringer", "with_field_mask", "field_mask_halfway", "field_mask_zero_required",
 	"no_default_serdes", "no_alias_type_reflection_method", "enable_ref_interface", "no_fmt", "skip_empty", "no_processor",
-	"get_enum_annotation", "apache_warning",
+	"get_enum_annotation", "apache_warning", "apache_adaptor",
 }
 
 var maskingOpts = map[string]bool{"no_default_serdes": true, "no_processor": true, "skip_empty": true, "no_fmt": true, "trim_idl": true}
@@ -197,6 +197,10 @@ func genOptions(rt *rapid.T) []string {
 	}
 	if on("with_field_mask") && !on("with_reflection") {
 		opts = append(opts, "with_reflection")
+	}
+	// documented: apache_warning and apache_adaptor are mutually exclusive
+	if on("apache_warning") && on("apache_adaptor") {
+		opts = append(opts, "apache_warning=false")
 	}
 	return opts
 }
